@@ -245,6 +245,12 @@ FLAT_ENTRIES = [
     ["alpha.o", AE_IFREG, 0o644, 10, 20, 1000000, bytes((i * 31 + 7) & 0xff for i in range(1537)), b"", b"", 600, []],
     ["b.txt", AE_IFREG, 0o600, 0, 0, 12345, b"hello, world\n" * 40, b"", b"", 0, []],
 ]
+# bodies larger than 64 KiB: skipping them goes through client_skip_proxy's large-request paths
+BIG_ENTRIES = [
+    ["big/one", AE_IFREG, 0o644, 1, 2, 1000, bytes((i * 7 + 13 * (i >> 8)) & 0xff for i in range(70001)), b"", b"", 0, []],
+    ["big/two", AE_IFREG, 0o644, 1, 2, 1001, bytes((i * 11 + 3 * (i >> 8)) & 0xff for i in range(150000)), b"", b"", 0, []],
+    ["big/three", AE_IFREG, 0o600, 1, 2, 1002, b"tail\n" * 30, b"", b"", 0, []],
+]
 WRITER_SPECS = [
     ("ustar", "", "", STD_ENTRIES), ("pax", "", "", STD_ENTRIES), ("paxr", "", "", STD_ENTRIES),
     ("gnutar", "", "", STD_ENTRIES), ("v7tar", "", "", STD_ENTRIES),
@@ -257,6 +263,8 @@ WRITER_SPECS = [
     ("ustar", "zstd", "", STD_ENTRIES), ("ustar", "lz4", "", STD_ENTRIES), ("cpio", "compress", "", STD_ENTRIES),
     ("ustar", "uuencode", "", STD_ENTRIES), ("ustar", "b64encode", "", STD_ENTRIES), ("gnutar", "lzip", "", STD_ENTRIES),
     ("ustar", "lzma", "", STD_ENTRIES),
+    ("ustar", "", "", BIG_ENTRIES), ("newc", "", "", BIG_ENTRIES), ("zip", "", "zip:compression=store", BIG_ENTRIES),
+    ("pax", "gzip", "", BIG_ENTRIES),
 ]
 
 def writer_archives(mk_exe):
@@ -269,7 +277,7 @@ def writer_archives(mk_exe):
         v = vparse(l)
         if v[0] < -20 or v[-2] < -20:
             continue
-        res.append(("w:%s%s%s" % (f, "+" + flt if flt else "", "/" + opt if opt else ""), v[-1]))
+        res.append(("w:%s%s%s%s" % (f, "+" + flt if flt else "", "/" + opt if opt else "", "#big" if ents is BIG_ENTRIES else ""), v[-1]))
     return res
 
 def read_case(arc, source=(1,), rplan=(), has_skip=0, has_seek=0, faults=(), consume=(0, 4096, 0), noraw=0):
